@@ -133,6 +133,10 @@ class PathBudgetExceeded(Exception):
     pass
 
 
+class PrunedPath(BaseException):
+    """a path entered on an undecided (timed-out) feasibility query that later proved infeasible"""
+
+
 class PathManager:
     def __init__(self, max_paths=512, timeout_ms=5000):
         self.max_paths = max_paths
@@ -166,6 +170,10 @@ class PathManager:
             elif f_ok:
                 choice = False
             else:
+                if self.unknown_feas:
+                    # an earlier feasibility query timed out and was (soundly) treated as feasible; this path has now turned
+                    # out to be infeasible: nothing lives on it
+                    raise PrunedPath()
                 raise EngineError("infeasible path reached (contradictory assumptions)")
         self.trace.append(choice)
         self.pos += 1
@@ -188,6 +196,9 @@ class PathManager:
             ctx.path = self
             try:
                 r = fn()
+            except PrunedPath:
+                self.pruned = getattr(self, "pruned", 0) + 1
+                continue
             finally:
                 ctx.path = None
             self.paths += 1
